@@ -1,5 +1,6 @@
 // C09 bounded stand-in: control.Marshal / control.Unmarshal round trip over a family of probe struct types, the
-// omission / required rules, and pass-through of unknown fields when the struct embeds control.Paragraph.
+// omission / required rules, and pass-through of unknown fields when the struct embeds control.Paragraph (also with
+// renamed fields of every kind: unmarshal, zero or change known fields, marshal; values ending in blank lines).
 package main
 
 import (
@@ -157,7 +158,10 @@ var (
 	arches  = vals{dependency.Arch{}, mustArch("amd64"), mustArch("any"), mustArch("all"), mustArch("linux-any"), mustArch("kfreebsd-amd64"), mustArch("bsd-openbsd-i386"),
 		dependency.Arch{ABI: "gnu", OS: "linux", CPU: "arm64"}}
 	archLs = vals{[]dependency.Arch(nil), []dependency.Arch{mustArch("amd64")}, []dependency.Arch{mustArch("amd64"), mustArch("any")}, []dependency.Arch{mustArch("all"), mustArch("i386"), mustArch("bsd-openbsd-i386")}}
-	multis = vals{"", "a\n", "a", "a b\nc\n", "a\n b\n\nc\n", " a\nb\n"} // canonical form ends in "\n"; "a" tests the added newline
+	multis = vals{"", "a\n", "a", "a b\nc\n", "a\n b\n\nc\n", " a\nb\n", // canonical form ends in "\n"; "a" tests the added newline
+		"a\n\n", "a\nb\n\n\n", "a\n\nb\n\n"} // values ending in 1..2 blank lines (written as trailing " ." lines)
+	// plain (not `multiline`) strings in the reader's canonical multi-line form; the last three end in 1..2 blank lines
+	strsML = vals{"a\nb\n", "a\n b\n\nc\n", "a\n\n", "a\nb\n\n\n", "a\n\nb\n\n"}
 )
 
 type probe struct {
@@ -175,11 +179,12 @@ func probes(thorough bool) []probe {
 		vers = append(vers, mustVer("1.0-1-2"), mustVer("0~~"), mustVer("10:1a+b.c~d-e+f"))
 		deps = append(deps, mustDep("a (<< 1), a (>> 2), a (= 1:1-1)"), mustDep("x:amd64 [linux-any] <stage1 !nocheck> <cross>"), mustDep("a | b | c, d"))
 		arches = append(arches, mustArch("hurd-i386"), mustArch("any-amd64"), mustArch("musl-linux-any"), mustArch("gnu-any-any"))
-		multis = append(multis, "a\n\n\nb\n", "a\n  deep\n", "one line with spaces\n")
+		multis = append(multis, "a\n\n\nb\n", "a\n  deep\n", "one line with spaces\n", "a\n  deep\n\n", "a\n\n\n\n")
+		strsML = append(strsML, "a\n\n\n\n", "a b\n  c\n\n")
 	}
 	t := func(x interface{}) reflect.Type { return reflect.TypeOf(x) }
 	return []probe{
-		{"string", t(PStr{}), map[string]vals{"S": append(vals{"a\nb\n", "a\n b\n\nc\n"}, strs...)}},
+		{"string", t(PStr{}), map[string]vals{"S": append(append(vals{}, strsML...), strs...)}},
 		{"int", t(PInt{}), map[string]vals{"N": ints}},
 		{"uint", t(PUint{}), map[string]vals{"U": uints}},
 		{"bool", t(PBool{}), map[string]vals{"B": bools}},
@@ -203,13 +208,13 @@ func probes(thorough bool) []probe {
 		{"combined 1 (binary-package like)", t(Comb1{}), map[string]vals{
 			"Package": {"", "pkg"}, "Source": {"", "src (1.0)"}, "Version": {version.Version{}, mustVer("1:1.0-1")}, "Arch": {mustArch("amd64"), mustArch("all"), mustArch("linux-any")},
 			"Depends": {dependency.Dependency{}, mustDep("libc6 (>= 2.4), a | b")}, "Size": {0, 1024, -1}, "Tags": {[]string(nil), []string{"role::program", "x y"}},
-			"Desc": {"", "short\n long\n\nmore\n"}, "Hidden": {"", "h"}}},
+			"Desc": {"", "short\n long\n\nmore\n", "short\n long\n\n"}, "Hidden": {"", "h"}}},
 		{"combined 2 (renamed+required+list+pointer+multiline)", t(Comb2{}), map[string]vals{
 			"Name": {"", "n m"}, "Count": {uint(0), uint(math.MaxUint)}, "Flag": bools, "Arches": {[]dependency.Arch(nil), []dependency.Arch{mustArch("amd64"), mustArch("any")}},
-			"Bins": {[]string(nil), []string{"a"}, []string{"a", "b c", "d"}}, "Note": {(*string)(nil), sp("n")}, "Body": {"", "l1\nl2\n", "l1\n\n l3\n"}}},
+			"Bins": {[]string(nil), []string{"a"}, []string{"a", "b c", "d"}}, "Note": {(*string)(nil), sp("n")}, "Body": {"", "l1\nl2\n", "l1\n\n l3\n", "l1\n\n\n"}}},
 		{"combined 3 (all optional)", t(Comb3{}), map[string]vals{
 			"A": {"", "a b"}, "B": {0, -1, math.MaxInt}, "C": {[]string(nil), []string{"x"}, []string{"x", "y", "z"}}, "D": {version.Version{}, mustVer("1.0-1")},
-			"E": {(*int)(nil), ip(0), ip(5)}, "F": {"", "f\n", "f\n g\n"}}},
+			"E": {(*int)(nil), ip(0), ip(5)}, "F": {"", "f\n", "f\n g\n", "f\n\n"}}},
 	}
 }
 
@@ -541,7 +546,9 @@ func embedded(thorough bool) {
 	foos := []string{"\x00absent", "f"}
 	nums := []string{"\x00absent", "5"}
 	lists := []string{"\x00absent", "a, b c"}
-	unknown := []kv{{"U1", "x y"}, {"X-U2", "a\n b\n\nc"}}
+	// a kv value is the field's lines joined by "\n" (no final newline): the last two X-U2 values end in one and in two
+	// blank lines (written " ." at the end of the field)
+	unknown := []kv{{"U1", "x y"}, {"X-U2", "a\n b\n\nc"}, {"X-U2", "a\nb\n"}, {"X-U2", "a\n\n"}}
 	newFoo := []string{"\x00keep", "g h", ""}
 	newNum := []interface{}{nil, -1, 0, math.MaxInt}
 	newList := []interface{}{nil, []string{"z"}, []string{"p q", "r"}, []string(nil)}
@@ -561,7 +568,9 @@ func embedded(thorough bool) {
 					one := insert(known, s1, unknown[0])
 					layouts = append(layouts, one)
 					for s2 := 0; s2 <= len(one); s2++ {
-						layouts = append(layouts, insert(one, s2, unknown[1]))
+						for _, u2 := range unknown[1:] {
+							layouts = append(layouts, insert(one, s2, u2))
+						}
 					}
 				}
 				for _, lay := range layouts {
@@ -663,7 +672,7 @@ func checkEmbedded(lay []kv, nf string, nn, nl interface{}) {
 			continue
 		}
 		wantOrder = append(wantOrder, x.k)
-		if !present || strings.TrimSuffix(got, "\n") != strings.TrimSuffix(x.v, "\n") {
+		if !present || strings.TrimSuffix(got, "\n") != x.v { // x.v: the lines joined by "\n"; the reader's value has one more "\n" when there are several lines
 			fail("embedded-unknown-field-changed", x.k, in, fmt.Sprintf("unknown field %s=%q, Marshal wrote %q", x.k, x.v, out.String()))
 		}
 	}
@@ -697,6 +706,324 @@ func checkEmbedded(lay []kv, nf string, nn, nl interface{}) {
 	}
 }
 
+// ---- part 3: embedded paragraph + renamed fields of every kind; unmarshal, zero or change known fields, marshal ----
+
+type EmbR struct {
+	control.Paragraph
+	Plain  string                // not renamed: the reference case
+	Home   string                `control:"X-Home"`
+	Tags   []string              `control:"X-Tags" delim:", "`
+	Words  []string              `control:"X-Words"`
+	Ver    version.Version       `control:"X-Version"`
+	Dep    dependency.Dependency `control:"X-Depends"`
+	Arch   dependency.Arch       `control:"X-Arch"`
+	Arches []dependency.Arch     `control:"X-Arches"`
+	Note   *string               `control:"X-Note"`
+	Desc   string                `control:"X-Desc" multiline:"true"`
+	Count  int                   `control:"X-Count"`
+	UCount uint                  `control:"X-UCount"`
+	Flag   bool                  `control:"X-Flag"`
+	Req    string                `control:"X-Req" required:"true"`
+	Hidden string                `control:"-"`
+}
+
+// one known field of EmbR: its text in the document (lines joined by "\n"), the value that text stands for, and the
+// values a scenario sets it to: alts[0] is the zero value, the others are different non-zero values
+type kfield struct {
+	goName, key, text string
+	val               interface{}
+	alts              []interface{}
+}
+
+var embRFields = []kfield{
+	{"Plain", "Plain", "p q", "p q", vals{"", "r"}},
+	{"Home", "X-Home", "http://example.org/x", "http://example.org/x", vals{"", "h2"}},
+	{"Tags", "X-Tags", "a, b c", []string{"a", "b c"}, vals{[]string(nil), []string{}, []string{"z"}}},
+	{"Words", "X-Words", "w1 w2", []string{"w1", "w2"}, vals{[]string(nil), []string{"w3"}}},
+	{"Ver", "X-Version", "1:1.0-1", mustVer("1:1.0-1"), vals{version.Version{}, mustVer("2.0~rc1")}},
+	{"Dep", "X-Depends", "foo (>= 1.0), bar | baz", mustDep("foo (>= 1.0), bar | baz"), vals{dependency.Dependency{}, mustDep("qux [amd64]")}},
+	{"Arch", "X-Arch", "amd64", mustArch("amd64"), vals{dependency.Arch{}, mustArch("linux-any")}},
+	{"Arches", "X-Arches", "amd64 any", []dependency.Arch{mustArch("amd64"), mustArch("any")}, vals{[]dependency.Arch(nil), []dependency.Arch{mustArch("i386")}}},
+	{"Note", "X-Note", "n o", sp("n o"), vals{(*string)(nil), sp("m")}},
+	{"Desc", "X-Desc", "\nshort\n long\n\nmore", "short\n long\n\nmore\n", vals{"", "d1\n\nd2\n\n", "d1\n\n\n"}}, // `multiline`: the text starts on the line after the key; two values end in blank lines
+	{"Count", "X-Count", "5", 5, vals{0, -1}},
+	{"UCount", "X-UCount", "7", uint(7), vals{uint(0), uint(math.MaxUint)}},
+	{"Flag", "X-Flag", "yes", true, vals{false}},
+	{"Req", "X-Req", "r s", "r s", vals{"", "r2"}},
+}
+
+// unknown fields: one line; several lines with a blank line inside; ending in one blank line; ending in two blank lines
+var embRUnknown = []kv{{"U1", "x y"}, {"X-U2", "a\n b\n\nc"}, {"X-U3", "a\nb\n"}, {"X-U4", "t\n\n"}}
+
+func trimNL(s string) string { return strings.TrimSuffix(s, "\n") }
+
+// the text of a field where the statement leaves no freedom: strings, integers and lists of strings
+func plainText(f reflect.Value, delim string) (string, bool) {
+	switch f.Kind() {
+	case reflect.Ptr:
+		if f.IsNil() {
+			return "", false
+		}
+		return plainText(f.Elem(), delim)
+	case reflect.String:
+		return f.String(), true
+	case reflect.Int:
+		return strconv.FormatInt(f.Int(), 10), true
+	case reflect.Uint:
+		return strconv.FormatUint(f.Uint(), 10), true
+	case reflect.Slice:
+		if f.Type().Elem().Kind() == reflect.String {
+			var el []string
+			for i := 0; i < f.Len(); i++ {
+				el = append(el, f.Index(i).String())
+			}
+			return strings.Join(el, delim), true
+		}
+	}
+	return "", false
+}
+
+// embCore: Unmarshal doc into a fresh value of typ (a struct embedding control.Paragraph), compare the decoded fields
+// with `decoded` (by Go field name; fields not listed must be zero), set the fields in `mut`, Marshal, and check the
+// written paragraph against the statement. Returns the written text and the struct as marshalled.
+func embCore(part string, typ reflect.Type, doc string, lay []kv, decoded, mut map[string]interface{}, in string) (string, reflect.Value, bool) {
+	ms := metas(typ)
+	count(part, in, true)
+	none := reflect.Value{}
+	docPara, err := readOne(doc)
+	if err != nil {
+		fail("embedded-unmarshal", part, in, fmt.Sprintf("the reader rejects the document: %v", err))
+		return "", none, false
+	}
+	for _, x := range lay {
+		// a value that starts on the line after the key (first line empty) is read without that empty first line
+		if got, ok := docPara.Values[x.k]; !ok || trimNL(got) != strings.TrimPrefix(x.v, "\n") {
+			fail("embedded-document-misread", x.k, in, fmt.Sprintf("field %s has the lines %q, the reader gives %q", x.k, x.v, got))
+		}
+	}
+	e := reflect.New(typ)
+	if pan := guard(func() { err = control.Unmarshal(e.Interface(), strings.NewReader(doc)) }); pan != "" || err != nil {
+		fail("embedded-unmarshal", part, in, fmt.Sprintf("panic=%q err=%v", pan, err))
+		return "", none, false
+	}
+	v := e.Elem()
+	known := map[string]bool{}
+	for _, m := range ms {
+		if !m.skip {
+			known[m.key] = true
+		}
+		w := reflect.Zero(typ.Field(m.idx).Type)
+		if x, ok := decoded[m.goName]; ok {
+			w = reflect.ValueOf(x)
+		}
+		if !sameField(w, v.Field(m.idx), m.multiline) {
+			fail("embedded-decode-differs", m.goName, in, fmt.Sprintf("field %s (%s) should decode to %s, Unmarshal gave %s", m.goName, m.key, describe(w), describe(v.Field(m.idx))))
+		}
+	}
+	for _, m := range ms {
+		if x, ok := mut[m.goName]; ok {
+			v.Field(m.idx).Set(reflect.ValueOf(x))
+		}
+	}
+	var out bytes.Buffer
+	if pan := guard(func() { err = control.Marshal(&out, v.Interface()) }); pan != "" || err != nil {
+		fail("marshal-panic", part, in, fmt.Sprintf("panic=%q err=%v", pan, err))
+		return "", none, false
+	}
+	para := control.Paragraph{Values: map[string]string{}}
+	if out.Len() > 0 {
+		p, err := readOne(out.String())
+		if err != nil {
+			fail("marshalled-text-unreadable", part, in, fmt.Sprintf("Marshal wrote %q: %v", out.String(), err))
+			return "", none, false
+		}
+		para = *p
+	}
+	state := "struct now " + describe(v)
+	// 1. known fields: omitted when zero and optional, written when required or not zero, never the control:"-" ones
+	for _, m := range ms {
+		f := v.Field(m.idx)
+		got, present := para.Values[m.key]
+		old, wasInDoc := docPara.Values[m.key]
+		if m.skip {
+			if _, w := para.Values[m.goName]; w || present {
+				fail("skipped-field-written", part, in, fmt.Sprintf("field %s is tagged control:\"-\" but the text is %q", m.goName, out.String()))
+			}
+			continue
+		}
+		z := isZero(f)
+		switch {
+		case z && !m.required && present && !zeroMayBeWritten(f):
+			if wasInDoc && trimNL(got) == trimNL(old) {
+				fail("embedded-stale-known-field", m.key, in, fmt.Sprintf("field %s (%s) now holds its zero value %s but Marshal re-emits the text it was read from: %q", m.goName, m.key, describe(f), out.String()))
+			} else {
+				fail("zero-"+kindName(f)+"-written", part+m.key, in, fmt.Sprintf("optional field %s (%s) holds its zero value %s but Marshal wrote %q", m.goName, m.key, describe(f), out.String()))
+			}
+		case (!z || m.required) && !present:
+			k := "nonzero-field-omitted"
+			if m.required {
+				k = "required-field-omitted"
+			}
+			fail(k, part+m.key, in, fmt.Sprintf("field %s (%s) = %s is missing from %q", m.goName, m.key, describe(f), out.String()))
+		case present && !m.multiline:
+			delim := " "
+			if d := typ.Field(m.idx).Tag.Get("delim"); d != "" {
+				delim = d
+			}
+			if want, ok := plainText(f, delim); ok && trimNL(got) != trimNL(want) {
+				fail("embedded-known-field-not-current", m.key, in, fmt.Sprintf("field %s (%s) should read %q, Marshal wrote %q; %s", m.goName, m.key, want, out.String(), state))
+			}
+		}
+	}
+	// 2. known fields reflect the current values: the written text decodes to the struct as it was marshalled
+	if out.Len() > 0 {
+		back := reflect.New(typ)
+		if pan := guard(func() { err = control.Unmarshal(back.Interface(), strings.NewReader(out.String())) }); pan != "" || err != nil {
+			fail("roundtrip-unmarshal-error", part, in, fmt.Sprintf("Marshal wrote %q, Unmarshal of that: panic=%q err=%v; %s", out.String(), pan, err, state))
+		} else {
+			for _, m := range ms {
+				a, b := v.Field(m.idx), back.Elem().Field(m.idx)
+				if m.skip {
+					if !b.IsZero() {
+						fail("skipped-field-read", part, in, fmt.Sprintf("field %s is tagged control:\"-\" but came back as %s from %q", m.goName, describe(b), out.String()))
+					}
+				} else if !sameField(a, b, m.multiline) {
+					fail("embedded-known-field-not-current", m.key, in, fmt.Sprintf("field %s (%s) holds %s, but the text Marshal wrote, %q, decodes to %s", m.goName, m.key, describe(a), out.String(), describe(b)))
+				}
+			}
+		}
+	}
+	// 3. unknown fields unchanged; nothing invented
+	inDoc := map[string]bool{}
+	for _, k := range docPara.Order {
+		inDoc[k] = true
+		if known[k] {
+			continue
+		}
+		if got, present := para.Values[k]; !present || trimNL(got) != trimNL(docPara.Values[k]) {
+			fail("embedded-unknown-field-changed", k, in, fmt.Sprintf("unknown field %s was read as %q, Marshal wrote %q", k, docPara.Values[k], out.String()))
+		}
+	}
+	for _, k := range para.Order {
+		if !inDoc[k] && !known[k] {
+			fail("embedded-field-invented", k, in, fmt.Sprintf("field %s is neither in the document nor a field of the struct: %q", k, out.String()))
+		}
+	}
+	// 4. the fields of the document that are written keep their order
+	var gotOrder, wantOrder []string
+	for _, k := range para.Order {
+		if inDoc[k] {
+			gotOrder = append(gotOrder, k)
+		}
+	}
+	for _, k := range docPara.Order {
+		if _, ok := para.Values[k]; ok {
+			wantOrder = append(wantOrder, k)
+		}
+	}
+	if strings.Join(gotOrder, ",") != strings.Join(wantOrder, ",") {
+		fail("embedded-order-changed", part, in, fmt.Sprintf("document order %v, written order %v (%q)", wantOrder, para.Order, out.String()))
+	}
+	return out.String(), v, true
+}
+
+// layout of a document: the known fields selected by mask (Req always) in struct order, the unknown fields put into
+// slots that move with the mask
+func embRLayout(mask int) (lay []kv, decoded map[string]interface{}) {
+	lay, decoded = embRLayoutKnown(mask)
+	for i, u := range embRUnknown {
+		lay = insert(lay, (mask*(i+3)+i*i)%(len(lay)+1), u)
+	}
+	return
+}
+
+func embRRun(part string, lay []kv, decoded, mut map[string]interface{}, what string, twoStep bool) {
+	doc := render(lay)
+	in := fmt.Sprintf("document %q, then %s", doc, what)
+	typ := reflect.TypeOf(EmbR{})
+	text, cur, ok := embCore(part, typ, doc, lay, decoded, mut, in)
+	if len(samples) < 12 && ok && len(lay) == 9 && strings.HasPrefix(what, "set every known field to its zero") && !twoStep {
+		samples = append(samples, map[string]string{"probe": part, "document": doc, "then": what, "marshalled": text})
+	}
+	if !ok || !twoStep || text == "" {
+		return
+	}
+	// second step: what was written is read into a fresh struct, every known field is zeroed, marshalled again:
+	// the unknown fields and the required one are all that may be left (and the int/uint/bool zeros)
+	dec2, zero := map[string]interface{}{}, map[string]interface{}{}
+	for _, m := range metas(typ) {
+		if !m.skip {
+			dec2[m.goName] = cur.Field(m.idx).Interface()
+			zero[m.goName] = reflect.Zero(typ.Field(m.idx).Type).Interface()
+		}
+	}
+	embCore(part+" (second step)", typ, text, nil, dec2, zero, in+"; then Unmarshal of the written text into a fresh struct, every known field set to its zero value, Marshal")
+}
+
+func embeddedRenamed() {
+	nopt := len(embRFields) - 1 // all but Req (the last one)
+	full := 1<<uint(nopt) - 1
+	all := func(pick func(i int, f kfield) (interface{}, bool)) map[string]interface{} {
+		m := map[string]interface{}{}
+		for i, f := range embRFields {
+			if x, ok := pick(i, f); ok {
+				m[f.goName] = x
+			}
+		}
+		return m
+	}
+	// (a) every subset of the optional known fields in the document x whole-struct operations
+	for mask := 0; mask <= full; mask++ {
+		lay, dec := embRLayout(mask)
+		embRRun("embedded+renamed: subsets", lay, dec, nil, "leave every field as read", false)
+		embRRun("embedded+renamed: subsets", lay, dec, all(func(i int, f kfield) (interface{}, bool) { return f.alts[0], true }), "set every known field to its zero value", false)
+		embRRun("embedded+renamed: subsets", lay, dec, all(func(i int, f kfield) (interface{}, bool) { return f.alts[len(f.alts)-1], true }), "set every known field to its last alternative value", true)
+		for par := 0; par < 2; par++ {
+			embRRun("embedded+renamed: subsets", lay, dec, all(func(i int, f kfield) (interface{}, bool) {
+				if i%2 == par {
+					return f.alts[0], true
+				}
+				return f.alts[(mask+i)%len(f.alts)], true
+			}), fmt.Sprintf("set the known fields with index%%2==%d to zero and the others to alternative (mask+index)%%len", par), false)
+		}
+	}
+	// (b) the document with every known field: one field, then every pair of fields, set to each of their alternatives
+	lay, dec := embRLayout(full)
+	for i, f := range embRFields {
+		for ai, a := range f.alts {
+			embRRun("embedded+renamed: one field", lay, dec, map[string]interface{}{f.goName: a, "Hidden": "h"}, fmt.Sprintf("set %s to alternative %d (%s) and Hidden to \"h\"", f.goName, ai, describe(reflect.ValueOf(a))), true)
+			for j, g := range embRFields {
+				if j <= i {
+					continue
+				}
+				for bi, b := range g.alts {
+					embRRun("embedded+renamed: two fields", lay, dec, map[string]interface{}{f.goName: a, g.goName: b}, fmt.Sprintf("set %s to alternative %d (%s) and %s to alternative %d (%s)", f.goName, ai, describe(reflect.ValueOf(a)), g.goName, bi, describe(reflect.ValueOf(b))), false)
+				}
+			}
+		}
+	}
+	// (c) each unknown value (also the ones ending in blank lines) in every slot of the full document, nothing changed / one field cleared
+	base, _ := embRLayoutKnown(full)
+	for _, u := range append(append([]kv{}, embRUnknown...), kv{"X-U5", "first\nsecond\n\n"}, kv{"X-U6", ".\n"}) {
+		for s := 0; s <= len(base); s++ {
+			l := insert(base, s, u)
+			embRRun("embedded+renamed: unknown slots", l, dec, nil, "leave every field as read", false)
+			embRRun("embedded+renamed: unknown slots", l, dec, map[string]interface{}{"Home": "", "Desc": "x\n\n"}, "set Home to \"\" and Desc to \"x\\n\\n\"", false)
+		}
+	}
+}
+
+func embRLayoutKnown(mask int) (lay []kv, decoded map[string]interface{}) {
+	decoded = map[string]interface{}{}
+	for i, f := range embRFields {
+		if f.goName == "Req" || mask>>uint(i)&1 == 1 {
+			lay = append(lay, kv{f.key, f.text})
+			decoded[f.goName] = f.val
+		}
+	}
+	return
+}
+
 // ---- main ----
 
 func main() {
@@ -705,6 +1032,7 @@ func main() {
 		runProbe(p, 1)
 	}
 	embedded(thorough)
+	embeddedRenamed()
 
 	if fails == nil {
 		fails = []failure{}
@@ -722,14 +1050,18 @@ func main() {
 	}
 	out := map[string]interface{}{
 		"bound": "Probe struct types: " + strings.Join(names, "; ") + ". Every probe: full cross product of the per-field value sets. " +
-			map[bool]string{true: "THOROUGH tier: each single-kind value set below is extended by 2-6 further values (see probes()). ", false: ""}[thorough] + "Value sets: strings {\"\", \"a\", \"a b\", \"x  y-z_1.0\"} (plain string probe also the canonical multi-line values \"a\\nb\\n\", \"a\\n b\\n\\nc\\n\"); int {0,-1,7,MaxInt,MinInt}; uint {0,1,MaxInt+1,MaxUint}; bool; " +
+			map[bool]string{true: "THOROUGH tier: each single-kind value set below is extended by 2-6 further values (see probes()). ", false: ""}[thorough] + "Value sets: strings {\"\", \"a\", \"a b\", \"x  y-z_1.0\"} (plain string probe also the canonical multi-line values \"a\\nb\\n\", \"a\\n b\\n\\nc\\n\" and, ending in 1..2 blank lines, \"a\\n\\n\", \"a\\nb\\n\\n\\n\", \"a\\n\\nb\\n\\n\"); int {0,-1,7,MaxInt,MinInt}; uint {0,1,MaxInt+1,MaxUint}; bool; " +
 			"[]string {nil,[a],[\"a b\",c],[a,\"b c\",\"d e f\"]} for delimiters ', ' and ',' (+strip), {nil,[a],[a,b],[a,b,c]} for the default space delimiter (no empty elements; no spaces inside elements when the delimiter is a space); " +
 			"version.Version {zero, 1.0, 1.0-1, 2:1.0~rc1-1+b2, 0:1:2-3-4} (via version.Parse); dependency.Dependency {zero, 'foo', 'foo (>= 1.0), bar | baz:any', 'a [amd64 i386] <!nocheck>, b [!linux-any], ${misc:Depends}'} (via dependency.Parse); " +
-			"dependency.Arch {zero, amd64, any, all, linux-any, kfreebsd-amd64, bsd-openbsd-i386 (via dependency.ParseArch), literal {gnu linux arm64}}; []Arch of 0..3; multiline strings {\"\", \"a\\n\", \"a\", \"a b\\nc\\n\", \"a\\n b\\n\\nc\\n\", \" a\\nb\\n\"}; pointers {nil, &value} for string,int,uint,bool,Version,Dependency. " +
+			"dependency.Arch {zero, amd64, any, all, linux-any, kfreebsd-amd64, bsd-openbsd-i386 (via dependency.ParseArch), literal {gnu linux arm64}}; []Arch of 0..3; multiline strings {\"\", \"a\\n\", \"a\", \"a b\\nc\\n\", \"a\\n b\\n\\nc\\n\", \" a\\nb\\n\", and ending in 1..2 blank lines: \"a\\n\\n\", \"a\\nb\\n\\n\\n\", \"a\\n\\nb\\n\\n\"} (the multi-line fields of the combined probes also take one value ending in 1..2 blank lines each); pointers {nil, &value} for string,int,uint,bool,Version,Dependency. " +
 			"Equality after the round trip, field by field: reflect.DeepEqual, except nil list == empty list, pointers compared by pointee (nil only equals nil), `multiline` strings equal up to one trailing \"\\n\", control:\"-\" fields must come back zero. " +
-			"Embedded paragraph (struct Emb{control.Paragraph; Foo string; Num int `control:\"X-Num\"`; List []string `delim:\", \"`}): documents with each known field absent/present (Foo: f, X-Num: 5, List: a, b c) and 0..2 unknown fields (U1: 'x y'; X-U2: multi-line 'a\\n b\\n\\nc') in every slot before/between/after the known ones, both relative orders; after Unmarshal each known field is left alone or set to a new value including its zero value (Foo {keep,\"g h\",\"\"}, Num {keep,-1,0,MaxInt}, List {keep,[z],[\"p q\",r],nil}); then Marshal.",
+			"Embedded paragraph (struct Emb{control.Paragraph; Foo string; Num int `control:\"X-Num\"`; List []string `delim:\", \"`}): documents with each known field absent/present (Foo: f, X-Num: 5, List: a, b c) and 0..2 unknown fields (U1: 'x y'; X-U2: multi-line, one of 'a\\n b\\n\\nc', 'a\\nb\\n' (ends in one blank line, written \" .\"), 'a\\n\\n' (ends in two blank lines)) in every slot before/between/after the known ones, both relative orders; after Unmarshal each known field is left alone or set to a new value including its zero value (Foo {keep,\"g h\",\"\"}, Num {keep,-1,0,MaxInt}, List {keep,[z],[\"p q\",r],nil}); then Marshal. " +
+			"Embedded paragraph with renamed fields of every kind (struct EmbR{control.Paragraph; Plain string; Home string `control:\"X-Home\"`; Tags []string `control:\"X-Tags\" delim:\", \"`; Words []string `control:\"X-Words\"`; Ver version.Version `control:\"X-Version\"`; Dep dependency.Dependency `control:\"X-Depends\"`; Arch dependency.Arch `control:\"X-Arch\"`; Arches []dependency.Arch `control:\"X-Arches\"`; Note *string `control:\"X-Note\"`; Desc string `control:\"X-Desc\" multiline:\"true\"`; Count int `control:\"X-Count\"`; UCount uint `control:\"X-UCount\"`; Flag bool `control:\"X-Flag\"`; Req string `control:\"X-Req\" required:\"true\"`; Hidden string `control:\"-\"`}), every known field with one document text and 1..3 alternative values of which the first is the zero value (see embRFields; Desc alternatives \"d1\\n\\nd2\\n\\n\" and \"d1\\n\\n\\n\" end in blank lines), unknown fields U1 'x y', X-U2 'a\\n b\\n\\nc', X-U3 'a\\nb\\n' (ends in one blank line), X-U4 't\\n\\n' (ends in two blank lines): " +
+			"(a) all 8192 subsets of the 13 optional known fields present in the document (X-Req always; the 4 unknown fields in slots that move with the subset), each followed by Unmarshal and one of 5 operations - leave as read / every known field to its zero value / every known field to its last alternative, then Marshal, Unmarshal of the written text into a fresh struct, every known field to zero, Marshal again (the two-step sequence) / fields of even (odd) index to zero and the others to an alternative - then Marshal; " +
+			"(b) the document with all known fields: every single field (two-step, and control:\"-\" field Hidden set to \"h\") and every pair of fields set to every combination of their alternatives; (c) the document with all known fields and one unknown field (the four above, X-U5 'first\\nsecond\\n\\n', X-U6 '.\\n') in every slot, left as read or with Home cleared and Desc set to \"x\\n\\n\".",
 		"rule": "Values are generated as the nested cross product per probe and checked single-threaded (the domain is small). Per value: Marshal must not panic or fail; the written field names must be exactly, in struct order: required fields, and optional fields whose value is not zero (zero = Go zero value or empty list), never control:\"-\" fields; Unmarshal of the text into a fresh value must succeed and reproduce every field; for each required field, the text with that field removed (and an X-Other field added) must make Unmarshal fail. " +
 			"Embedded: unknown fields keep value and relative order, known fields present in the output show the struct's current value, known fields whose current value is zero are omitted, known fields newly set are written. " +
+			"Embedded with renamed fields (EmbR): the reader's view of the document must match the lines it was rendered from and Unmarshal must decode every known field to the value its text stands for (absent fields stay zero); after the operation and Marshal: an optional known field holding its zero value (nil/empty list, nil pointer, zero Version/Dependency/Arch, \"\") is absent from the written text (reported as embedded-stale-known-field when the text it was read from is re-emitted) - except int/uint/bool whose zero renders as \"0\"/\"no\"; required or non-zero fields are present; string/int/uint/[]string fields read exactly the current value's text; control:\"-\" is never written or read; Unmarshal of the written text into a fresh struct gives every known field its current value; every unknown field is present with the value the reader gave for the document (up to one trailing \"\\n\", so blank lines at the end of a value count); no field is invented; the fields of the document that are written keep the document's order. " +
 			fmt.Sprintf("evaluations by probe: %v. A case is trivial (%d of them, not counted in distinct_nontrivial) when nothing is expected and nothing is written (all fields optional and zero: the text is empty and there is no paragraph to read back). distinct_nontrivial = distinct (probe, value) descriptions by 64-bit FNV.", byPart, trivial),
 		"evaluations":         evals,
 		"distinct_nontrivial": len(seen),
